@@ -15,7 +15,6 @@ import (
 	"sort"
 	"strconv"
 	"strings"
-	"unicode"
 )
 
 // ---------- instants ----------
@@ -612,8 +611,9 @@ var nsOld = nsSet{"http://www.w3.org/2006/10/ttaf1", "http://www.w3.org/2006/10/
 func isXMLSpace(r rune) bool { return r == ' ' || r == '\t' || r == '\n' || r == '\r' }
 
 // BareOK reports whether a run may be rendered as bare character data at that position under the
-// rendering: no style, no attributes, some non-white-space text, and no outer white space where the
-// format cannot tell it from indentation (own-line layout; start of the paragraph).
+// rendering: no style, no attributes, some non-white-space text, and no outer XML white space
+// (space, tab, CR, LF) where the format cannot tell it from indentation (own-line layout; start of
+// the paragraph). Characters that are not XML white space (U+00A0, U+3000 ...) are text everywhere.
 func BareOK(run Run, r Render, firstInP bool) bool {
 	if run.Style != "" || len(run.Attrs) > 0 || strings.TrimSpace(run.Text) == "" {
 		return false
@@ -621,15 +621,18 @@ func BareOK(run Run, r Render, firstInP bool) bool {
 	if strings.ContainsAny(run.Text, "\n\r") {
 		return false
 	}
-	trimmed := strings.TrimSpace(run.Text) == run.Text
 	if r.Indent != 0 && !r.Inline {
-		return trimmed
+		return strings.TrimFunc(run.Text, isXMLSpace) == run.Text
 	}
 	if firstInP {
-		return strings.TrimLeftFunc(run.Text, unicode.IsSpace) == run.Text
+		return strings.TrimLeftFunc(run.Text, isXMLSpace) == run.Text
 	}
 	return true
 }
+
+// StartsRawLine reports whether a bare run at that position is the first thing on a line of the
+// paragraph's inner XML (so that white space before it is indentation).
+func StartsRawLine(r Render, firstInP bool) bool { return (r.Indent != 0 && !r.Inline) || firstInP }
 
 type writer struct {
 	b              strings.Builder
